@@ -50,6 +50,8 @@ def run(ctx):
     ctx.count('closures_analysed', fr.stats['closures'])
     n_value = 0
     summaries = {}
+    # a Substance is a value too (documented immutable): a store to one of its attributes anywhere in the library
+    sub_attrs = tuple('.' + a for a in sorted(model.instance_attrs('Substance')) if a not in ('name',))
     for e in events:
         top = e.top
         cname = top.cls.name if top.cls is not None else None
@@ -57,7 +59,7 @@ def run(ctx):
         in_builder = cname in BUILDER_CLASSES
         # relevance: objects of the value classes (or of the builder, whose rules are OWNED)
         relevant = in_value or in_builder or any(a in e.target_text for a in ('.contents', '.volume', '.wells',
-                                                 '.plate', '.instructions', '.max_volume'))
+                                                 '.plate', '.instructions', '.max_volume') + sub_attrs)
         if not relevant:
             continue
         n_value += 1
@@ -155,6 +157,26 @@ def run(ctx):
                        key=f"results value not fresh in {m.name}")
     floor(ctx, 'stores into self.results', nres, 8)
 
+    # reading must not write: `contents` is a plain dict.  In a defaultdict (or Counter) a subscript read of a missing
+    # key inserts it, so an observer asked about a substance the container does not hold changes the container
+    inserting = []
+    for fi in model.funcs.values():
+        if fi.mod.rel != 'pyplate/pyplate.py':
+            continue
+        for st in ast.walk(fi.node):
+            if isinstance(st, (ast.Assign, ast.AnnAssign)) and st.value is not None:
+                tg = st.targets if isinstance(st, ast.Assign) else [st.target]
+                if any(isinstance(t, ast.Attribute) and t.attr == 'contents' for t in tg):
+                    for c in ast.walk(st.value):
+                        if isinstance(c, ast.Call) and unparse(c.func).split('.')[-1] in ('defaultdict', 'Counter'):
+                            inserting.append((fi, st.lineno, unparse(st, 70)))
+    anchor_fi = model.func('Container.__init__')
+    for fi, line, txt in inserting:
+        ctx.ob('C04.R1', fi, line, 'contents is a mapping whose reads do not insert', False, fact=txt,
+               why='a subscript read of an absent substance adds it with amount 0: observers (get_concentration, dilute '
+                   'looking up its solvent) modify the container they are asked about', key='contents reads insert')
+    ctx.ob('C04.R1', anchor_fi, anchor_fi.node.lineno, 'contents is a plain dict everywhere it is created', not inserting,
+           fact=f"{len(inserting)} inserting mapping(s)", why='see the reports', key='contents mapping type', nontrivial=False)
     return {'explanation': 'Freshness/ownership analysis: every mutation event of pyplate.py, slicer.py and '
                            'experiment_design.py (attribute/subscript/augmented stores, in-place container methods, '
                            'calls of receiver-mutating repo methods, writes through numpy views, and the closures '
